@@ -45,31 +45,33 @@ Theorem C19_xid : forall hash evs st xid a c,
   exists s, c = Some (s_id s) /\ In s (st_sess st) /\ s_closed s = false /\ s_addr s = a.
 Proof. exact (fun hash evs st xid a c _ => candidates_xid hash st xid a c). Qed.
 
-(* Re-announcement.  Full statement (reannounce_ok): on every new session the
-   client sends RegisterTM and RegisterRM r for every resource r it holds.
-   For the code as it is this is FALSE (finding reconnect.rm-reannounce): *)
-Theorem C19_reannounce_refuted :
-  exists evs, ~ (forall c sent, In (c, sent) (snd (crun cinit evs)) ->
-                 includes sent (on_open_required c) = true).
-Proof. exact reannounce_refuted. Qed.
-
-(* what does hold, over all histories of register-resource / conn-lost (session still
-   open or already closed by the peer) / reconnect (to any address) events: RegisterTM is always re-announced, and the new session
-   carries everything required exactly when no resource had been registered *)
-Theorem C19_reannounce_partial : forall evs c sent,
+(* Re-announcement (FULL statement; the model follows the code after the fix "a newly
+   opened session is told the registered resources again").  Over ALL histories of
+   register-resource (any branch type) / connection lost (session still open or already
+   closed by the peer) / reconnect (to any address, with a first write that succeeds or
+   fails) events: every session that gets established carries RegisterTM and, for every
+   resource the client holds, a RegisterRM naming it *)
+Theorem C19_reannounce : forall evs c sent,
   In (c, sent) (snd (crun cinit evs)) ->
   In RegisterTM sent /\
-  (cl_resources c = [] -> includes sent (on_open_required c) = true) /\
-  (cl_resources c <> [] -> includes sent (on_open_required c) = false).
-Proof. exact reannounce_partial. Qed.
+  forall t r, In (t, r) (cl_resources c) -> exists ids, In (RegisterRM ids) sent /\ In r ids.
+Proof. exact reannounce_full. Qed.
 
-(* every REGISTERED open session has announced the TM: after ANY history — connections
-   lost with the session open or already closed by the peer, reconnects to any address,
-   first writes on a fresh connection that FAIL while the session stays open (then the
-   session is released again, nothing stays registered) — a connected client has had
-   RegisterTM written successfully on its session *)
+(* a client without resources sends nothing extra (first connection unaffected) *)
+Theorem C19_reannounce_nothing_extra : forall c,
+  cl_resources c = [] -> on_open c = [RegisterTM].
+Proof. exact on_open_no_resources. Qed.
+
+(* every REGISTERED open session is an announced one: after ANY history — connections
+   lost either way, reconnects to any address, first writes on a fresh connection that
+   FAIL while the session stays open (then the session is released again, nothing stays
+   registered), resources registered while connected or not — a connected client has had
+   RegisterTM written successfully on its session and every resource it holds announced
+   on that session *)
 Theorem C19_registered_announced : forall evs,
-  cl_connected (fst (crun cinit evs)) = true -> cl_tm (fst (crun cinit evs)) = true.
+  cl_connected (fst (crun cinit evs)) = true ->
+  cl_tm (fst (crun cinit evs)) = true
+  /\ forall x, In x (cl_resources (fst (crun cinit evs))) -> In x (cl_rm (fst (crun cinit evs))).
 Proof. exact registered_announced. Qed.
 
 (* ---- non-vacuity ---- *)
@@ -96,24 +98,27 @@ Example C19_xid_nonvacuous :
 Proof. vm_compute. auto. Qed.
 
 (* first connection, lost with the session already closed by the peer, reconnect to
-   the SAME address (the stale entry is still recorded: count 2), a resource, lost
-   while open, reconnect to ANOTHER address: RegisterTM on each of the three sessions *)
+   the SAME address (the stale entry is still recorded), a TCC and two AT resources,
+   lost while open, reconnect to ANOTHER address: the third session carries RegisterTM,
+   one RegisterRM for the TCC resource and one for both AT resources (sorted) *)
 Example C19_reannounce_nonvacuous :
   let a := [x61] in let b := [x62] in
-  let r := crun cinit [CReconnect a true; CConnLost true; CReconnect a true; CRegisterResource [x72];
+  let r := crun cinit [CReconnect a true; CConnLost true; CReconnect a true;
+                       CRegisterResource 1 [x72]; CRegisterResource 0 [x7a]; CRegisterResource 0 [x64];
                        CConnLost false; CReconnect b true] in
-  map snd (snd r) = [[RegisterTM]; [RegisterTM]; [RegisterTM]]
-  /\ map (fun cs => cl_server (fst cs)) (snd r) = [[]; [(a, 1)]; [(a, 1)]]
+  map snd (snd r) = [[RegisterTM]; [RegisterTM]; [RegisterTM; RegisterRM [[x72]]; RegisterRM [[x64]; [x7a]]]]
+  /\ forallb (fun cs => reannounced (fst cs) (snd cs)) (snd r) = true
   /\ cl_server (fst r) = [(a, 1); (b, 1)] /\ cl_all (fst r) = 1
-  /\ map (fun cs => cl_resources (fst cs)) (snd r) = [[]; []; [[x72]]].
+  /\ cl_rm (fst r) = [(1, [x72]); (0, [x7a]); (0, [x64])].
 Proof. vm_compute. auto 6. Qed.
 
 (* a reconnect whose announcement cannot be written leaves the client disconnected and
-   nothing registered; the next reconnect announces *)
+   nothing registered; the next reconnect announces TM and the resource *)
 Example C19_registered_announced_nonvacuous :
   let a := [x61] in
-  let c1 := fst (crun cinit [CReconnect a true; CConnLost true; CReconnect a false]) in
-  let c2 := fst (crun cinit [CReconnect a true; CConnLost true; CReconnect a false; CReconnect a true]) in
+  let h := [CReconnect a true; CRegisterResource 1 [x72]; CConnLost true; CReconnect a false] in
+  let c1 := fst (crun cinit h) in
+  let c2 := fst (crun cinit (h ++ [CReconnect a true])) in
   cl_connected c1 = false /\ cl_all c1 = 0 /\ cnt_of (cl_server c1) a = 1
-  /\ cl_connected c2 = true /\ cl_tm c2 = true /\ cl_all c2 = 1.
-Proof. vm_compute. auto 7. Qed.
+  /\ cl_connected c2 = true /\ cl_tm c2 = true /\ cl_all c2 = 1 /\ cl_rm c2 = [(1, [x72])].
+Proof. vm_compute. auto 8. Qed.
